@@ -241,11 +241,17 @@ PARAM_COMMENT_WITNESSES = [w('local x = function( -- c\n a) end\nfunction f( -- 
 UNOP_COMMENT_WITNESSES = [w('foo(- -- c\n a)\nfoo(not -- d\n a, b)\nlocal x = # -- e\n a\nlocal y = - -- f\n -a\nif not -- g\n a then end\n', oracle="comments", sweep=(10, 120))]
 ARG_PAREN_COMMENT_WITNESSES = [w('foo((a -- c\n))\nfoo(a, (b -- d\n))\nfoo(a + (b -- e\n), d)\nfoo(-(a -- f\n))\na:b -- g\n (d)\nlocal x = a:b -- h\n (d):e()\n', oracle="comments", sweep=(10, 120))]
 OPEN_COMMENT_FINDINGS = []
+# line comments inside kept parentheses (D31), in front of a type assertion (D32), uncovered inside a nested operand chain (D33)
+LINE_SAFE_WITNESSES = [w('local s = ( -- x\n"x"):rep(3)\nlocal t = ("x" -- y\n):rep(3)\nfoo((a -- z\n).b)\nfoo(( -- w\n a).b, -(c -- v\n) ^ 2)\n', oracle="comments", sweep=(10, 120)),
+                       w(f'local x = {"a" * 49} + ({"b" * 46} -- c\n) * {"d" * 42}\nlocal y = {"a" * 30} .. ({"b" * 30} -- c\n) .. {"d" * 30} .. e\n', oracle="tree", sweep=(10, 140)),
+                       w(f'local x = {"a" * 49} + ({"b" * 46} -- c\n) * {"d" * 42}\n', oracle="comments", sweep=(10, 140)),
+                       w('x = a -- c\n :: T\nfoo((a -- d\n) :: number)\nlocal y = ((b -- e\n) :: any) :: T\n', oracle="tree", syntax="luau", sweep=(10, 120)),
+                       w('x = a -- c\n :: T\nfoo((a -- d\n) :: number)\n', oracle="comments", syntax="luau", sweep=(10, 120))]
 # D30 (open, a class): a line comment directly behind a keyword / name / symbol inside a statement header or a bracket, where the
 # formatter expects no comment: the token printed next lands inside the comment. One witness per call site that was examined.
 D30_FINDINGS = [w('local -- x\n x = 1\n', oracle="comments"), w('for -- x\n i = 1, 2 do end\n', oracle="comments"), w('for i = 1, -- x\n 2 do end\n', oracle="comments"),
                 w('local function f -- x\n() end\n', oracle="comments"), w('function m.n -- x\n:o() end\n', oracle="comments"), w('repeat a() until -- x\n b\n', oracle="comments"),
-                w('local t = { [ -- x\n 2] = 3 }\n', oracle="comments"), w('goto -- x\n done\n::done::\n', oracle="comments", syntax="lua52"), w('local s = ( -- x\n"x"):rep(3)\n', oracle="comments")]
+                w('local t = { [ -- x\n 2] = 3 }\n', oracle="comments"), w('goto -- x\n done\n::done::\n', oracle="comments", syntax="lua52")]
 D30_TREE_FINDINGS = [w('local x <const> -- x\n = 1\n', oracle="tree", syntax="lua54")]
 OPEN_C03_FINDINGS = [w('local a = { c -- k\n = bar() }\n', oracle="comments"),   # D29
     w('local t = { a -- c\n, -- d\n b }\n', oracle="comments"), w('foo(a -- c\n, -- d\n b)\n', oracle="comments"), w('return a -- c\n, -- d\n b\n', oracle="comments")]   # D28, one per formatter
@@ -262,13 +268,15 @@ WITNESSES = {
     "C18.": [cli("json_diff_reconstructs"), cli("unified_diff_reconstructs"), cli("check_never_writes")],
     "C01.output_is_printed_ast": LIB_WITNESSES, "C01.verified": LIB_WITNESSES, "C12.sort_iff_enabled": LIB_WITNESSES, "C02.whole_ast": LIB_WITNESSES,
     "C08.": BLOCK_WITNESSES, "C09.": BLOCK_WITNESSES, "C01.semicolon": BLOCK_WITNESSES[-2:], "C01.next_starts": BLOCK_WITNESSES[-2:],
-    "C05.": EXPR_WITNESSES + BINOP_COMMENT_WITNESSES,
+    "C05.": EXPR_WITNESSES + BINOP_COMMENT_WITNESSES, "C01.single_line.line_safe": LINE_SAFE_WITNESSES + BINOP_COMMENT_WITNESSES + UNOP_COMMENT_WITNESSES,
+    "C05.hanging.line_safe": LINE_SAFE_WITNESSES + BINOP_COMMENT_WITNESSES + UNOP_COMMENT_WITNESSES, "C05.hang_binop.line_safe": LINE_SAFE_WITNESSES, "C01.parenthesise": LINE_SAFE_WITNESSES[:1],
+    "C01.unary_operand": UNOP_COMMENT_WITNESSES, "C01.format_expression.line_safe": LINE_SAFE_WITNESSES + BINOP_COMMENT_WITNESSES,
     "C01.bracket_string_visible_hanging": BRACKET_WITNESSES + BINOP_COMMENT_WITNESSES,
     "C01.double_minus_guard": EXPR_WITNESSES[1:3],
 }
 
-C01_BOUNDED = [x for x in COLLAPSE_WITNESSES if x["oracle"] == "comments"] + BRACKET_WITNESSES + REHANG_WITNESSES[1:] + BINOP_COMMENT_WITNESSES + CALL_COMMENT_WITNESSES[:1] + PARAM_COMMENT_WITNESSES + UNOP_COMMENT_WITNESSES + ARG_PAREN_COMMENT_WITNESSES + OPEN_COMMENT_FINDINGS + D30_FINDINGS
-C02_BOUNDED = TYPE_WITNESSES + [x for x in COLLAPSE_WITNESSES if x["oracle"] == "tree"] + CALL_COMMENT_WITNESSES[1:] + D30_TREE_FINDINGS
+C01_BOUNDED = [x for x in COLLAPSE_WITNESSES if x["oracle"] == "comments"] + BRACKET_WITNESSES + REHANG_WITNESSES[1:] + BINOP_COMMENT_WITNESSES + CALL_COMMENT_WITNESSES[:1] + PARAM_COMMENT_WITNESSES + UNOP_COMMENT_WITNESSES + ARG_PAREN_COMMENT_WITNESSES + [LINE_SAFE_WITNESSES[i] for i in (0, 2, 4)] + OPEN_COMMENT_FINDINGS + D30_FINDINGS
+C02_BOUNDED = TYPE_WITNESSES + [x for x in COLLAPSE_WITNESSES if x["oracle"] == "tree"] + CALL_COMMENT_WITNESSES[1:] + [LINE_SAFE_WITNESSES[i] for i in (1, 3)] + D30_TREE_FINDINGS
 C03_BOUNDED = (TABLE_COMMENT_WITNESSES + COND_COMMENT_WITNESSES + SEMI_COMMENT_WITNESSES + [x for x in COLLAPSE_WITNESSES if x["oracle"] == "comments"][:2]
                + PAREN_COMMENT_WITNESSES + REHANG_WITNESSES[:1] + SORT_COMMENT_WITNESSES + FIELD_COMMENT_WITNESSES + OPEN_C03_FINDINGS)
 def nest(n, open_, close): return "local v = " + "".join(open_ for _ in range(n)) + "1" + "".join(close for _ in range(n)) + "\n"
